@@ -329,6 +329,7 @@ pub fn exec_op<'a, 's: 'a>(
     op: &Op,
     me: usize,
 ) -> Vec<R> {
+    crate::parent::tick(); // every completed operation is a sign of life for the hang watchdog
     let mut out = Vec::new();
     let res = catch_unwind(AssertUnwindSafe(|| exec_inner(env, over, bufs, op, me, &mut out)));
     if let Err(p) = res {
